@@ -165,6 +165,9 @@ pub struct ObjInfo {
     pub content: Option<Vec<u8>>,
     pub md5: Option<String>,
     pub add_err: Option<String>,
+    /// datagram length of the object's packets / of the packet carrying its last source symbol
+    pub pl: u64,
+    pub pll: u64,
 }
 
 pub struct Session {
@@ -179,6 +182,8 @@ pub struct Session {
     pub tmp: Option<std::path::PathBuf>,
     /// first packet of the sender that flute's own parser rejects
     pub unparsable: Option<String>,
+    /// the packet lengths of an object do not follow the rule the model assumes (input check)
+    pub pktlen_odd: Option<String>,
 }
 
 impl Drop for Session {
@@ -405,6 +410,8 @@ pub fn build(sp: &SessP) -> Result<Session, String> {
             content: data,
             md5: None,
             add_err: None,
+            pl: 0,
+            pll: 0,
         };
         match desc {
             Err(e) => {
@@ -565,7 +572,36 @@ pub fn build(sp: &SessP) -> Result<Session, String> {
         tois.sort();
         fdts.push(FdtInst { id, len: *len, tois });
     }
-    Ok(Session { sp: sp.clone(), objs, stream, fdts, sched, hash, sender_panic, stuck, tmp, unparsable })
+    // datagram lengths per object: one length for all packets, except the packet carrying the last
+    // source symbol of the last block (shorter with No-Code)
+    let mut pktlen_odd = None;
+    let mut objs = objs;
+    for oi in objs.iter_mut() {
+        let toi = match oi.toi {
+            Some(t) => t,
+            None => continue,
+        };
+        let (al, asm, nl, n) = rfc_partition(oi.oti.b as u128, oi.tl.unwrap_or(0) as u128, oi.oti.e as u128);
+        let last = if n == 0 { None } else { Some(((n - 1) as u32, ((if n - 1 < nl { al } else { asm }) - 1) as u32)) };
+        let mut pl: Option<u64> = None;
+        let mut pll: Option<u64> = None;
+        for d in stream.iter().filter(|d| d.toi == toi) {
+            let len = d.data.len() as u64;
+            let slot = if Some((d.sbn, d.esi)) == last { &mut pll } else { &mut pl };
+            match slot {
+                None => *slot = Some(len),
+                // (Raptor splits a block that is not a multiple of the symbol size its own way - benc's
+                // finding D22 `raptor-symbol-split-unaligned-block`: symbol lengths are irregular there)
+                Some(x) if *x != len && oi.oti.sch != Scheme::Raptor => {
+                    pktlen_odd.get_or_insert(format!("toi {}: packet ({}, {}) has {} bytes, others {}", toi, d.sbn, d.esi, len, x));
+                }
+                _ => {}
+            }
+        }
+        oi.pl = pl.or(pll).unwrap_or(0);
+        oi.pll = pll.or(pl).unwrap_or(0);
+    }
+    Ok(Session { sp: sp.clone(), objs, stream, fdts, sched, hash, sender_panic, stuck, tmp, unparsable, pktlen_odd })
 }
 
 impl Session {
@@ -575,6 +611,8 @@ impl Session {
         for (o, i) in sp.objs.iter_mut().zip(self.objs.iter()) {
             o.toi = i.toi;
             o.tl = i.tl;
+            o.pl = i.pl;
+            o.pll = i.pll;
         }
         sp.fdts = self.fdts.clone();
         sp.sched = self.sched.clone();
